@@ -159,6 +159,85 @@ def pushdown_component(ck, runner, rng, tier):
         ck.note(comp, k, v)
 
 
+def pruning_component(ck, runner, rng, tier):
+    """Multi-row-group Parquet files written by tools/pqwrite.py with controlled statistics: exact, loose (valid but wider),
+    absent, deprecated min/max fields, flagged inexact, NULL-only chunks, single-value chunks; predicates whose constant is
+    inside one row group's range, between ranges, outside all ranges, NULL. Pushed scan vs unpushable filter."""
+    import pqwrite
+    comp = "pruning"
+    d = os.path.join(vlib.ROOT, "scratch", "c11pq")
+    os.makedirs(d, exist_ok=True)
+    nfiles = 12 if tier == "quick" else 200
+    for fi in range(nfiles):
+        ty = rng.pick(["int32", "int64", "int64"])
+        cols = [("k", ty, rng.chance(1, 2)), ("v", "int64", True), ("s", "utf8", True)]
+        nrg = rng.pick([2, 3, 5])
+        rgs, allk = [], []
+        base = rng.pick([-1000, 0, 10, 2 ** 31 - 5000 if ty == "int64" else 1000])
+        for g in range(nrg):
+            lo = base + g * rng.pick([10, 100, 100, 7])          # ranges may overlap or leave gaps
+            n = rng.pick([1, 3, 50, 300])
+            ks = [lo + rng.below(rng.pick([1, 5, 60])) for _ in range(n)]
+            if cols[0][2]:
+                mode = rng.pick(["some", "none", "all"])
+                ks = [None if (mode == "all" or (mode == "some" and rng.chance(1, 4))) else k for k in ks]
+            rows = [[k, rng.below(100), rng.pick(["a", "b", None])] for k in ks]
+            nn = [k for k in ks if k is not None]
+            allk += nn
+            kind = rng.pick(["auto", "auto", "loose", "absent", "deprecated", "inexact", "no_flags"])
+            if kind == "auto" or not nn:
+                st = "auto"
+            elif kind == "loose":
+                st = {"min": min(nn) - rng.below(50), "max": max(nn) + rng.below(50), "exact": rng.pick([True, False])}
+            elif kind == "absent":
+                st = None
+            elif kind == "deprecated":
+                st = {"deprecated": True}
+            elif kind == "inexact":
+                st = {"exact": False}
+            else:
+                st = {"exact": None}
+            rgs.append({"rows": rows, "page_rows": rng.pick([None, 7, 100]), "stats": {0: st}})
+        path = os.path.join(d, f"p{fi % 6}.parquet")
+        pqwrite.write_file(path, cols, rgs)
+        consts = []
+        if allk:
+            consts += [rng.pick(allk), min(allk), max(allk), min(allk) - 1, max(allk) + 1, (min(allk) + max(allk)) // 2]
+            gaps = [k + 1 for k in sorted(set(allk)) if k + 1 not in set(allk)]
+            consts += gaps[:2]
+        consts = list(dict.fromkeys(consts)) + [None]
+        cases = []
+        for c in consts:
+            lit = "NULL" if c is None else (f"CAST({c} AS BIGINT)" if c >= 0 else f"CAST('{c}' AS BIGINT)")
+            for proj in ["k, v", "s", "count(*)", "v, k, v"]:
+                for extra in ["", " AND v >= 0", f" AND k = {lit}"]:
+                    cases.append((f"SELECT {proj} FROM '{path}' WHERE k = {lit}{extra}", f"SELECT {proj} FROM (SELECT * FROM '{path}') zz WHERE k + 0 = {lit}{extra.replace('k =', 'k + 0 =')}"))
+        if tier == "quick":
+            cases = [cs for cs in cases if rng.chance(1, 2)]
+        flat = []
+        for a, b in cases:
+            flat += ["RESET enable_optimizer", f"SET partitions TO {rng.pick([1, 2, 8])}", a, "SET enable_optimizer TO false", b]
+        res = runner.run(flat, timeout=180)
+        if isinstance(res, dict):
+            ck.violation("pruning/crash", "pushed-down scans over a generated multi-row-group file crash", {"kind": "crash", "columns": cols, "row_groups": [len(r['rows']) for r in rgs], "stmts": flat[:10], "result": res})
+            continue
+        for i, (a, b) in enumerate(cases):
+            ra, rb = res[5 * i + 2], res[5 * i + 4]
+            ck.count(comp, 1)
+            ck.nontrivial(a)
+            if "rows" in ra and "rows" in rb:
+                if bag(ra["rows"]) != bag(rb["rows"]):
+                    import shutil
+                    keep = os.path.join(vlib.ROOT, "replays", "C11", f"pruning_{fi}.parquet")
+                    os.makedirs(os.path.dirname(keep), exist_ok=True)
+                    shutil.copy(path, keep)
+                    ck.violation("pruning/rows-differ", f"row-group pruning changes the result: pushed scan {len(ra['rows'])} rows, unpushed {len(rb['rows'])}: {a.replace(path, keep)[:200]}",
+                                 {"kind": "impl-vs-oracle", "file": keep, "pushed": a.replace(path, keep), "reference": b.replace(path, keep), "row_group_stats": [str(r['stats']) for r in rgs],
+                                  "pushed_rows": ra["rows"][:8], "reference_rows": rb["rows"][:8]})
+            elif "rows" in rb:
+                ck.violation("pruning/error-only-when-pushed", f"the pushed-down form fails ({str(ra)[:100]}): {a[:160]}", {"kind": "impl-vs-oracle", "pushed": a, "result": ra, "row_group_stats": [str(r['stats']) for r in rgs]})
+
+
 def write_files(rng):
     os.makedirs(SCRATCH, exist_ok=True)
     for old in pyglob.glob(os.path.join(SCRATCH, "*")):
@@ -257,6 +336,7 @@ def main():
     rng = Rng(ck.seed * 3571 + 11)
     os.chdir(vlib.ROOT)
     try:
+        pruning_component(ck, runner, rng, tier)
         multi_file_component(ck, runner, rng, tier)
         pushdown_component(ck, runner, rng, tier)
     finally:
